@@ -81,7 +81,11 @@ func (f *Func) Redefine(opts ...Arg) (*Func, error) {
 			callArgs = append(callArgs, namedValue(name, v.Field(f.index)))
 		}
 		for _, f := range set.typedValues {
-			callArgs = append(callArgs, Typed(v.Field(f.index).Interface()))
+			// Like the named values, under their static type: an input of
+			// an interface type must not turn into a value of its dynamic
+			// type, which could replace an argument of that very type that
+			// was given to Redefine.
+			callArgs = append(callArgs, valueArg("", v.Field(f.index), ""))
 		}
 
 		// Call
